@@ -511,6 +511,13 @@ def replay_dir(ctx, tla, cfg, is_reset):
     p = os.path.join(ctx.replay, "failing-trace.ndjson")
     if not os.path.exists(p):
         raise Infra("no failing-trace.ndjson in " + ctx.replay)
+    mf = os.path.join(ctx.replay, "meta.json")
+    if os.path.exists(mf):
+        # a shared driver may have recorded the failure with another trace specification than the check's main one
+        m = json.load(open(mf))
+        if m.get("trace_spec", tla) != tla and os.path.exists(os.path.join(SPEC, m["trace_spec"])) and m.get("cfg") and m["trace_spec"] != "SetLin.tla":
+            tla, cfg = m["trace_spec"], m["cfg"]
+            is_reset = lambda e: str(e.get("e", "")).endswith("Init")
     ok = judge_trace(ctx, tla, cfg, p, "replay", 1, is_reset)
     return ctx.finish()
 
